@@ -145,7 +145,14 @@ def handle : Handler := fun j => do
     match old with
     | .error e => pure (errJson e)
     | .ok vr =>
-      match declareRec ex (← jstr j "who") (← jstr j "now") vr p with
+      -- "links": [[link, target], ...]: the symbolic links of the tree (os.path.realpath in VersionFile.write)
+      let links : List (Path × Path) ← match j.getObjVal? "links" with
+        | .ok l => (← l.getArr?).toList.mapM fun e => do
+            match (← e.getArr?).toList with
+            | [a, b] => pure (Path.ofStr (Str.ofString (← a.getStr?)), Path.ofStr (Str.ofString (← b.getStr?)))
+            | _ => throw "link entry"
+        | .error _ => pure []
+      match declareRecR (realOf links) ex (← jstr j "who") (← jstr j "now") vr p with
       | .error e => pure (errJson e)
       | .ok r =>
         match printVersion r with
